@@ -375,7 +375,7 @@ def nested_header_frame(depth):
 
 def gen_nested(tier, seed):
     cases = []
-    for d in [50, 100, 250] + ([] if tier == "quick" else [400]) + [5000]:
+    for d in [50, 250, 800, 1500] + ([] if tier == "quick" else [400, 2500]) + [5000]:
         c = Case("n%d" % d, ["run 0 0 chatty 900 tail=%s,0" % nested_header_frame(d).hex()], {"keep_prefix": 0})
         c.meta["depth"] = d
         cases.append(c)
@@ -412,7 +412,7 @@ def gen_absurd_long(tier, seed):
 def suites(tier, seed):
     return [
         Suite("nested-headers-e2e", "hbe2e", lambda: gen_nested(tier, seed), monitor=nested_monitor, nontrivial=lambda c, il: True, compare=False, shrink=False, timeout=120,
-              rule="real connection and I/O thread: a syntactically valid content header whose `headers` table nests 50 / 100 / 250 (thorough: 400) field arrays arrives right behind OpenOk: the frame is parsed on the I/O thread without taking the process down (it then ends the connection as a frame for a channel that is not open). Depth 5000 (a 25 KB frame) is open known finding D20: the dependency's recursive parser overflows the I/O thread's 2 MiB stack"),
+              rule="real connection and I/O thread: a syntactically valid content header whose `headers` table nests 50 / 250 / 800 / 1500 (thorough: also 400, 2500) field arrays arrives right behind OpenOk: the frame is parsed on the I/O thread without taking the process down (it then ends the connection as a frame for a channel that is not open). Depth 5000 (a 25 KB frame) is open known finding D20: the dependency's recursive parser overflows the I/O thread's 2 MiB stack"),
         Suite("absurd-size-long-body", "machine", lambda: gen_absurd_long(tier, seed), monitor=monitor, nontrivial=lambda c, il: True, canon=mg.canon_nondet, shrink=False, timeout=600,
               rule="a delivery announced with 2^64-1 / 2^63-1 / 2^40 bytes followed by 9 (thorough: 17) full body frames of 131 064 bytes - more than 1 MiB really arrives for it: no panic, no allocation sized by the announcement"),
         Suite("violation-after-own-close", "machine", lambda: gen_violation_after_close(tier, seed), monitor=monitor, nontrivial=lambda c, il: True, canon=mg.canon_nondet, candidate_ok=mg.candidate_ok, exhaustive=True,
